@@ -141,25 +141,28 @@ structure Counter where
   remainder : Nat := 0
   deriving DecidableEq, Repr, Inhabited
 
-/-- `CompactShareCounter.Add`: returns the new state and the (signed) share increment. -/
-def Counter.add (c : Counter) (dataLen : Nat) : Counter × Int :=
-  let d := dataLen + uvarintLen dataLen
-  let lastR := c.remainder
-  let lastS := c.shares
+/-- the three phases of `CompactShareCounter.Add` on (shares, remainder) for `d` more bytes:
+    fill the first share, fill the current continuation share, then whole continuation shares. -/
+def Counter.advance (shares remainder d : Nat) : Nat × Nat :=
   -- first share
   let (s1, r1, d1) :=
-    if c.shares = 0 then
-      if d ≥ 474 - c.remainder then (c.shares + 1, 0, d - (474 - c.remainder))
-      else (c.shares, c.remainder + d, 0)
-    else (c.shares, c.remainder, d)
+    if shares = 0 then
+      if d ≥ 474 - remainder then (shares + 1, 0, d - (474 - remainder))
+      else (shares, remainder + d, 0)
+    else (shares, remainder, d)
   -- fill the current continuation share
   let (s2, r2, d2) :=
     if d1 ≥ 478 - r1 then (s1 + 1, 0, d1 - (478 - r1)) else (s1, r1 + d1, 0)
   -- whole continuation shares
-  let (s3, r3) := if d2 > 0 then (s2 + d2 / 478, d2 % 478) else (s2, r2)
-  let diff : Int := (s3 : Int) - (lastS : Int)
-  let diff := if lastR = 0 ∧ r3 > 0 then diff + 1 else if lastR > 0 ∧ r3 = 0 then diff - 1 else diff
-  ({ lastShares := lastS, lastRemainder := lastR, shares := s3, remainder := r3 }, diff)
+  if d2 > 0 then (s2 + d2 / 478, d2 % 478) else (s2, r2)
+
+/-- `CompactShareCounter.Add`: returns the new state and the (signed) share increment. -/
+def Counter.add (c : Counter) (dataLen : Nat) : Counter × Int :=
+  let d := dataLen + uvarintLen dataLen
+  let p := Counter.advance c.shares c.remainder d
+  let diff : Int := (p.1 : Int) - (c.shares : Int)
+  let diff := if c.remainder = 0 ∧ p.2 > 0 then diff + 1 else if c.remainder > 0 ∧ p.2 = 0 then diff - 1 else diff
+  ({ lastShares := c.shares, lastRemainder := c.remainder, shares := p.1, remainder := p.2 }, diff)
 
 def Counter.revert (c : Counter) : Counter :=
   { c with shares := c.lastShares, remainder := c.lastRemainder }
